@@ -192,12 +192,15 @@ func checkC19(ctx *Ctx, r *Report) {
 
 	for _, f := range fns {
 		c19CheckFunc(ctx, r, o, f.fd, f.obj)
+		c19ZeroValueAndEquality(ctx, r, o, f.fd, f.obj)
 	}
 	r.Floor("orderedmap functions", 12)
+	r.Floor("omap stores into the records of the receiver", 1)
 	r.Floor("omap writers classified", 3)
 	r.Floor("omap observer loops", 3)
 
 	c19Callers(ctx, r, o)
+	c19JSONKeys(ctx, r, o)
 }
 
 // isFreshMapLocal: ident was defined by `x := New[...]()` in fd.
@@ -398,6 +401,22 @@ func c19CheckFunc(ctx *Ctx, r *Report, o *omapInfo, fd *ast.FuncDecl, obj *types
 					keys = append(keys, e.key)
 				case "ordAppend":
 					ap = append(ap, e.node)
+				case "recAssign":
+					// lazy initialisation in front of the insert: `if records == nil { records = make(map) }` — records was
+					// nil, so no key of order had a record to lose (order is empty then under INV)
+					lazy := false
+					if as, ok := e.node.(*ast.AssignStmt); ok {
+						if mk, ok := e.rhs.(*ast.CallExpr); ok && isBuiltinCall(info, mk, "make") {
+							for _, c := range enclosingConds(parents, as) {
+								if be, ok := c.stmt.Cond.(*ast.BinaryExpr); ok && !c.inElse && be.Op == token.EQL && o.isRec(be.X) && isNilIdent(info, be.Y) {
+									lazy = true
+								}
+							}
+						}
+					}
+					if !lazy {
+						other++
+					}
 				default:
 					other++
 				}
@@ -1030,4 +1049,115 @@ func mentionsLenOf(info *types.Info, cond ast.Expr, recv ast.Expr, o *omapInfo) 
 		return true
 	})
 	return found
+}
+
+// c19ZeroValueAndEquality: two clauses on the representation of an empty map. (a) The zero value of Map has nil
+// records; every method that stores into the records of its receiver allocates them first under `records == nil`
+// (a store into a nil map panics). (b) An empty order is nil after New / Filter / Map and a non-nil empty slice after
+// Remove: no method hands the order (or records) of two maps to a deep-equality function, which tells nil from empty.
+func c19ZeroValueAndEquality(ctx *Ctx, r *Report, o *omapInfo, fd *ast.FuncDecl, obj *types.Func) {
+	if fd.Body == nil || fd.Recv == nil || len(fd.Recv.List) == 0 || len(fd.Recv.List[0].Names) == 0 {
+		return
+	}
+	info := o.info
+	recv := info.Defs[fd.Recv.List[0].Names[0]]
+	name := ctx.FuncName(obj)
+	parents := parentMap(fd)
+	var firstStore ast.Node
+	guardAt := token.NoPos
+	ast.Inspect(fd.Body, func(n ast.Node) bool {
+		switch x := n.(type) {
+		case *ast.AssignStmt:
+			for i, l := range x.Lhs {
+				if ix, ok := ast.Unparen(l).(*ast.IndexExpr); ok && o.isRec(ix.X) {
+					if root := rootIdent(ix.X); root != nil && objOf(info, root) == recv && firstStore == nil {
+						firstStore = x
+					}
+				}
+				if o.isRec(l) && i < len(x.Rhs) {
+					if root := rootIdent(l); root != nil && objOf(info, root) == recv {
+						if mk, ok := ast.Unparen(x.Rhs[i]).(*ast.CallExpr); ok && isBuiltinCall(info, mk, "make") {
+							for _, c := range enclosingConds(parents, x) {
+								if be, ok := c.stmt.Cond.(*ast.BinaryExpr); ok && !c.inElse && be.Op == token.EQL && o.isRec(be.X) && isNilIdent(info, be.Y) && !guardAt.IsValid() {
+									guardAt = c.stmt.Pos()
+								}
+							}
+						}
+					}
+				}
+			}
+		case *ast.CallExpr:
+			fn := callee(info, x)
+			if fn == nil || fn.Pkg() == nil {
+				return true
+			}
+			deep := (fn.Pkg().Path() == "github.com/google/go-cmp/cmp" && fn.Name() == "Equal") || (fn.Pkg().Path() == "reflect" && fn.Name() == "DeepEqual")
+			if !deep {
+				return true
+			}
+			for _, a := range x.Args {
+				if o.isOrd(a) || o.isRec(a) {
+					r.Bad("omap/equal-by-content", name+" compares "+exprString(a)+" deeply", x.Pos(), "the representation field "+exprString(a)+" is handed to "+fn.Name()+", which tells a nil slice / map from an empty one: a map emptied by Remove (empty order) and a new one (nil order) hold the same content and compare unequal")
+				}
+			}
+		}
+		return true
+	})
+	if firstStore != nil {
+		r.Count("omap stores into the records of the receiver", 1)
+		r.Check(guardAt.IsValid() && guardAt < firstStore.Pos(), "omap/zero-value-safe", name+" allocates records before storing", firstStore.Pos(),
+			"`records == nil` is tested and the map allocated before the first store",
+			"the method stores into the records of its receiver without allocating them when they are nil: on the zero value of Map (every other method accepts it) this is `assignment to entry in nil map`")
+	}
+	if obj.Name() == "Equal" {
+		r.OK("omap/equal-by-content", name+" anchor", fd.Pos(), "Equal is present and is checked for deep comparisons of the representation")
+	}
+}
+
+// c19JSONKeys: a JSON object key is a string. Map[K comparable, V] defines MarshalJSON / UnmarshalJSON for every K:
+// unless K is constrained to string kinds, MarshalJSON must turn the key into a string before it encodes it (the
+// encoder writes an integer key bare: invalid JSON) and UnmarshalJSON must not assert the decoded token to K (true
+// for K = string only).
+func c19JSONKeys(ctx *Ctx, r *Report, o *omapInfo) {
+	tps := o.mapT.TypeParams()
+	if tps == nil || tps.Len() == 0 {
+		return
+	}
+	stringsOnly := false
+	if iface, ok := tps.At(0).Constraint().Underlying().(*types.Interface); ok {
+		for i := 0; i < iface.NumEmbeddeds(); i++ {
+			if u, ok := iface.EmbeddedType(i).(*types.Union); ok {
+				all := u.Len() > 0
+				for j := 0; j < u.Len(); j++ {
+					if b, ok := u.Term(j).Type().Underlying().(*types.Basic); !ok || b.Kind() != types.String {
+						all = false
+					}
+				}
+				stringsOnly = all
+			}
+			if b, ok := iface.EmbeddedType(i).Underlying().(*types.Basic); ok && b.Kind() == types.String {
+				stringsOnly = true
+			}
+		}
+	}
+	um := ctx.LookupMethod("internal/orderedmap", o.mapT.Obj().Name(), "UnmarshalJSON")
+	fd, _ := ctx.DeclOf(um)
+	if fd == nil || fd.Body == nil {
+		r.Undecided("anchor lost: orderedmap UnmarshalJSON")
+		return
+	}
+	asserts := false
+	var at token.Pos
+	ast.Inspect(fd.Body, func(n ast.Node) bool {
+		if ta, ok := n.(*ast.TypeAssertExpr); ok && ta.Type != nil {
+			if tp, ok := o.info.TypeOf(ta.Type).(*types.TypeParam); ok && tp.Index() == 0 {
+				asserts = true
+				at = ta.Pos()
+			}
+		}
+		return true
+	})
+	r.Check(stringsOnly || !asserts, "omap/json-keys-are-strings", "orderedmap JSON methods and the key type", at,
+		"the key type is constrained to strings, or the decoded key is converted rather than asserted",
+		"Map is generic in any comparable key type but UnmarshalJSON asserts the decoded key token (a string) to K and MarshalJSON encodes the key as a JSON value: with `type name string` the bytes the map produced cannot be decoded back, with integer keys MarshalJSON returns invalid JSON without an error")
 }
